@@ -1,10 +1,10 @@
 \* the repaired algorithm (header keeps its delimiter, groups keyed by printed width)
-\* on every printed width, the empty prefix and non-integer suffixes
+\* on natural and %04d widths (quick tier; _big adds %05d and more numbers), the empty prefix and non-integer suffixes
 SPECIFICATION Spec
 CONSTANTS
   Heads <- HeadsAll
   Numbers <- NumsAll
-  Widths <- WidthsAll
+  Widths <- WidthsQuick
   Extra <- ExtraAll
   MaxIds = 3
   Variant = "keepwidth"
